@@ -1188,7 +1188,7 @@ Proof.
     destruct ((max_message_payload_size c =? 0) || (lenN p <=? max_message_payload_size c)) eqn:Esz; [|discriminate].
     injection Hs as <- <- <-.
     destruct (Forall2_nth_error _ _ _ I2 _ _ En) as (pm & Hn & nk & Hh & Hl & Hpp). cbn [fst snd] in Hh, Hl, Hpp.
-    cbn [api_step]. rewrite Hn, Hpp.
+    cbn [api_step]. rewrite Hn, Hpp, Hopen. cbn [negb].
     assert (Hs0 : (0 <? max_message_payload_size c) && (max_message_payload_size c <? lenN p) = false).
     { apply orb_prop in Esz. destruct Esz as [H|H].
       - apply N.eqb_eq in H. rewrite H. reflexivity.
